@@ -169,7 +169,7 @@ def check_c09(tier):
                     tags.append('mRNA_end_NF')
                     sect_endnf = sect_endnf or bool(secs)
                     seq = seq[:ce - 3 - r.randrange(0, 3)]; ce = len(seq)
-                    secs = [x for x in secs if x + 3 <= len(seq)]
+                    secs = [x for x in secs if x + 6 <= len(seq)]     # a Sec codon is never the last codon of the model
                     prot = refgen.derive_protein(seq, cs, secs)
                 if r.random() < 0.15:
                     tags.append('cds_start_NF')
